@@ -59,8 +59,12 @@ class Gen:
             return tr
         if r < 0.75:
             return "%s<%s>" % (tr, self.ty(depth - 1, use))
-        if r < 0.85:
+        if r < 0.82:
             return "Iterator<Item = %s>" % self.ty(depth - 1, use)
+        if r < 0.85:
+            # generic arguments written on the NAME of an associated type (generic associated types) are uses too
+            a = self.lt(use) if self.rng.random() < 0.4 else self.ty(depth - 1, use)
+            return self.rng.choice(["Tr<Gat<%s> = u32>", "Tr<Gat<%s>: Clone>", "Lend<Item<%s> = u8, Other = u16>"]) % a
         if r < 0.92:
             return "Fn(%s) -> %s" % (self.ty(depth - 1, use), self.ty(depth - 1, use))
         return "Tr<Item: PartialEq<%s>>" % self.ty(depth - 1, use)
@@ -124,10 +128,13 @@ def c_node(n):
     if n is None:
         return "None"
     t = n["t"]
-    one = {"slice": "NSlice", "array": "NArray", "ptr": "NPtr", "paren": "NParen", "group": "NGroup", "argtype": "NArgType",
-           "assoc": "NArgAssocType"}
+    one = {"slice": "NSlice", "array": "NArray", "ptr": "NPtr", "paren": "NParen", "group": "NGroup", "argtype": "NArgType"}
     if t in one:
         return capp(one[t], c_node(n["e"]))
+    if t == "assoc":
+        return capp("NArgAssocType", c_node(n["g"]), c_node(n["e"]))
+    if t == "constraint":
+        return capp("NArgConstraint", c_node(n["g"]), clist([c_node(x) for x in n["bs"]]))
     if t == "ref":
         return capp("NRef", copt(n["lt"], cstr), c_node(n["e"]))
     if t == "barefn":
@@ -137,9 +144,8 @@ def c_node(n):
     if t == "path":
         return capp("NPath", copt(n["q"], c_node), cbool(n["leading"]),
                     clist(["(%s, %s)" % (cstr(i), c_node(a)) for i, a in n["segs"]]))
-    if t in ("traitobject", "impltrait", "constraint"):
-        return capp({"traitobject": "NTraitObject", "impltrait": "NImplTrait", "constraint": "NArgConstraint"}[t],
-                    clist([c_node(x) for x in n["bs"]]))
+    if t in ("traitobject", "impltrait"):
+        return capp({"traitobject": "NTraitObject", "impltrait": "NImplTrait"}[t], clist([c_node(x) for x in n["bs"]]))
     if t == "angle":
         return capp("NAngle", clist([c_node(x) for x in n["args"]]))
     if t == "parenargs":
